@@ -16,6 +16,10 @@ Models: `Fuota.Naive` (`flash-algo-new/src/update/naive.rs`) and `Fuota.Orig`
   is missing.
 * `dup_noop_naive`, `dup_noop_orig` — a fragment whose status byte reads "written" changes neither the device nor the
   in-memory session (no program is issued), and is answered `Consumed` when the stored bytes equal the delivered ones.
+* `dup_consumed_orig` — since the repair the original crate's duplicate check reads exactly the fragment and answers
+  `Consumed` (former finding `orig-dup-error`).
+* `naive_parity_count_le`, `naive_parity_header_parses`, `naive_parity_count_witness` — since the repair the naive
+  `start_update` announces a parity count the header can represent (former finding `naive-parity-count-unclamped`).
 * `peel_confluent`, `complete_iff_peel_partial` — the repair loop is a peeling decoder: for every delivery sequence
   (any order, duplicates) the data mask is the least set that contains the delivered data and is closed under
   "a received row with exactly one covered fragment outside" — whatever row the scan prefers; completion is reported
@@ -231,19 +235,63 @@ theorem dup_noop_orig (cfg : Orig.Cfg) (scratchLen idx1 : Nat) (bytes : List Nat
   unfold Orig.writeSegmentInternal
   simp only [OrigRun.run_bind, OrigRun.getA_run, hp, OrigRun.liftM_run, hst]
   simp only [List.getD_cons_zero, ↓reduceIte, OrigRun.run_bind, OrigRun.liftM_run]
-  have hs := readTo_state p.dataStart scratchLen d
-  cases hrd : (readTo p.dataStart scratchLen).run d with
-  | mk r d' =>
-    rw [hrd] at hs; simp only at hs; subst hs
-    cases r with
-    | error e => rfl
-    | ok got =>
-      simp only
-      by_cases c1 : bytes.length > scratchLen
-      · simp [c1, OrigRun.run_throw, OrigRun.run_bind]
-      · by_cases c3 : got.take bytes.length = bytes
-        · simp [c1, c3, OrigRun.run_pure, OrigRun.run_bind]
-        · simp [c1, c3, OrigRun.run_throw, OrigRun.run_bind]
+  by_cases c1 : bytes.length > scratchLen
+  · simp [c1, OrigRun.run_throw, OrigRun.run_bind]
+  · simp only [c1, ↓reduceIte, OrigRun.run_bind, OrigRun.liftM_run, OrigRun.run_pure]
+    have hs := readTo_state p.dataStart bytes.length d
+    cases hrd : (readTo p.dataStart bytes.length).run d with
+    | mk r d' =>
+      rw [hrd] at hs; simp only at hs; subst hs
+      cases r with
+      | error e => rfl
+      | ok got =>
+        simp only
+        by_cases c3 : got.take bytes.length = bytes
+        · simp [c3, OrigRun.run_pure, OrigRun.run_bind]
+        · simp [c3, OrigRun.run_throw, OrigRun.run_bind]
+
+/-- **dup_noop (original), the answer**: since the repair the duplicate check reads exactly `bytes.len()` bytes at
+    the fragment's own data address (inside its slot, see `Fuota.C20.plan_in_slot`); when they equal the delivered
+    bytes the call answers `Consumed` — also for a fragment stored at the very end of the device (former finding
+    `orig-dup-error`: 256 bytes were read there, beyond the device). -/
+theorem dup_consumed_orig (cfg : Orig.Cfg) (scratchLen idx1 : Nat) (bytes got : List Nat) (a : Orig.Act) (d : Dev)
+    (p : Orig.WPlan) (hp : Orig.planWrite cfg a idx1 bytes.length = .ok p)
+    (hst : (readTo p.writtenAddr 1).run d = (.ok [Consts.O_DATA_WRITTEN], d))
+    (hl : bytes.length ≤ scratchLen)
+    (hrd : (readTo p.dataStart bytes.length).run d = (.ok got, d)) (heq : got.take bytes.length = bytes) :
+    (Orig.writeSegmentInternal cfg scratchLen idx1 bytes).run (a, d) = (.ok .consumed, (a, d)) := by
+  unfold Orig.writeSegmentInternal
+  simp only [OrigRun.run_bind, OrigRun.getA_run, hp, OrigRun.liftM_run, hst]
+  have c1 : ¬ bytes.length > scratchLen := by omega
+  simp only [List.getD_cons_zero, ↓reduceIte, c1, OrigRun.run_bind, OrigRun.liftM_run, OrigRun.run_pure, hrd, heq]
+
+/-! ## the parity count of the naive `start_update` (repaired: clamped to `MAX_SEGMENTS`) -/
+
+/-- with the clamp the announced parity count is a value the header field can represent ... -/
+theorem naive_parity_count_le (cfg : Naive.Cfg) (hc : cfg.clampParity = true) (slot sz : Nat) :
+    Naive.parityCount cfg slot sz ≤ MAX_SEGMENTS := by
+  unfold Naive.parityCount
+  simp only [hc, ↓reduceIte]
+  exact Nat.min_le_right _ _
+
+/-- ... so the parity header parses back whenever at least one fragment fits the slot: `repair_step` sees the
+    coded fragments and `try_recover` finds the session (former finding `naive-parity-count-unclamped`) -/
+theorem naive_parity_header_parses (cfg : Naive.Cfg) (hc : cfg.clampParity = true) (slot sz : Nat)
+    (hfit : 1 ≤ Naive.parityCount cfg slot sz) :
+    Layout.parseNseg Fs.C (Naive.parityCount cfg slot sz) = some (Naive.parityCount cfg slot sz) := by
+  have h := naive_parity_count_le cfg hc slot sz
+  unfold Layout.parseNseg
+  have hm : Fs.C.maxSegments = MAX_SEGMENTS := rfl
+  rw [hm]
+  simp [hfit, h]
+  omega
+
+/-- witness of the repaired defect: fragment size 2 on 64 KiB slots — the pinned count 24064 does not parse, the
+    clamped count 16384 does -/
+theorem naive_parity_count_witness :
+    Naive.parityCount { clampParity := false } 65536 2 = 24064 ∧ Layout.parseNseg Fs.C 24064 = none ∧
+    Naive.parityCount { clampParity := true } 65536 2 = 16384 ∧ Layout.parseNseg Fs.C 16384 = some 16384 := by
+  decide
 
 /-! ## the repair loop is a peeling decoder -/
 
